@@ -35,7 +35,7 @@ var searchCfgs = []searchCfg{
 	}},
 	{"full/captures-quiescence", func() (search.Search, refsearch.Config, func(context.Context, *board.Board)) {
 		leaf := search.Leaf{Eval: eval.Material{}}
-		return search.AlphaBeta{Eval: search.Quiescence{Explore: capturesOnly, Eval: leaf}}, refsearch.Config{Leaf: refsearch.Quiesce, QExplore: capturesOnly, QPredPure: true, Eval: leaf}, noReset
+		return search.AlphaBeta{Eval: search.Quiescence{Explore: capturesOnly, Eval: leaf}}, refsearch.Config{Leaf: refsearch.Quiesce, QExplore: capturesOnly, QPredPure: true, Eval: leaf, QMemo: &quietMemo}, noReset
 	}},
 	{"turochamp", func() (search.Search, refsearch.Config, func(context.Context, *board.Board)) {
 		leaf := search.Leaf{Eval: turochamp.Eval{}}
@@ -117,6 +117,16 @@ var searchRoots = []searchRoot{
 	{"4k3/8/8/8/2pP4/8/8/4K2B b - d3 0 1", nil, "ep net"},
 	{"r1b1k3/ppp5/8/4N3/8/8/PPP5/2K5 w - - 0 1", []string{"e5f7"}, "tactical"},
 	{"2k5/8/8/8/8/8/4r3/R3K3 w Q - 3 20", []string{"e1e2"}, "tactical net"},
+}
+
+// richRoots: capture-rich middlegames. Exhaustive minimax is affordable there only at small
+// depths (static leaves) and, for the quiescence configurations, within a node budget.
+var richRoots = []searchRoot{
+	{"r3k2r/p1ppqpb1/bn2pnp1/3PN3/1p2P3/2N2Q1p/PPPBBPPP/R3K2R w KQkq - 0 1", nil, "rich"},
+	{"1nk3rR/2p3b1/b3ppP1/5q2/p1B1P1n1/2Bp4/P7/RN2KR2 w - - 4 36", nil, "rich"},
+	{"r5nr/R2nk1pp/5p2/1ppppb1q/1P3P2/K2PP1PB/2PbQ2P/1N4NR b - - 3 16", nil, "rich"},
+	{"r1bq1rk1/pp2bppp/2n1pn2/2pp4/3P1B2/2PBPN2/PP1N1PPP/R2QK2R w KQ - 0 8", nil, "rich"},
+	{"rnbq1k1r/pp1Pbppp/2p5/8/2B5/8/PPP1NnPP/RNBQK2R w KQ - 1 8", nil, "rich"},
 }
 
 // newSearchBoards sets up the implementation board and the reference game for a root.
